@@ -68,7 +68,8 @@ def replay(path):
 
 MUTATIONS = [
     dict(name="http-header-cap-removed", edits=[("src/http_api.cpp", "if(total_read_ > 16384) {", "if(total_read_ > 16384 && false) {")]),
-    dict(name="fcgi-parse_pairs-overflow-check-swapped", edits=[("src/fastcgi_api.cpp", "if(uint32_t(e - p) >= nlen) { // don't chage order -- prevent integer overflow\n\t\t\t\t\tname = pool_.add", "if(p + nlen <= e) { // swapped\n\t\t\t\t\tname = pool_.add")]),
+    # (removed: fcgi-parse_pairs-overflow-check-swapped -- "p + nlen <= e" cannot wrap with 64-bit pointers and a 32-bit length:
+    #  an equivalent mutant on every platform this sandbox can build)
     dict(name="negative-content-length-regression", edits=[("src/http_request.cpp", "\tif(d->content_length < 0)\n\t\treturn 400;\n", "")]),
     dict(name="scgi-missing-nul-regression", edits=[("src/scgi_api.cpp", "\t\t\tbuffer_.back() = 0;\n", "")]),
     dict(name="scgi-length-cap-removed", edits=[("src/scgi_api.cpp", "if(len < 0 || 16384 < len) {", "if(len < 0) {")]),
